@@ -27,6 +27,7 @@ NEEDS_GEN = True
 LEAN_TARGETS = ["AiuVerif.Props.C08"]
 THEOREMS = [
     "AiuVerif.C08.final_sort_last",
+    "AiuVerif.C08.final_sort_enabled_in_profiles",
     "AiuVerif.C08.sort_batch",
     "AiuVerif.C08.sorted_block",
     "AiuVerif.C08.export_sorted",
@@ -252,7 +253,13 @@ def run(ctx: Ctx):
     for s in range(nsc):
         spec = {"R": rng.randint(1, 4), "groups": rng.randint(1, 2), "kernels": rng.randint(1, 3),
                 "seed": rng.randint(0, 10 ** 6), "ties": rng.randint(2, 6), "near": s % 2 == 0}
+        if s == 0:
+            spec["R"] = 1
         opts_sets = OPTION_SETS if not ctx.quick() else [OPTION_SETS[0]] + rng.sample(OPTION_SETS[1:], 5)
+        if spec["R"] == 1 or spec["groups"] == 0:
+            # collective-event building (-R) adds late-synthesized events too; it only runs on traces without
+            # multi-rank collectives here (on those the experimental path raises, which is not C08's business)
+            opts_sets = opts_sets + [["--flow", "-R"]]
         for o in opts_sets:
             jobs.append((spec, o))
     results = par.pmap(e2e_run, jobs)
